@@ -495,7 +495,7 @@ def units_rule(crate, prop, rule="C14.R17"):
                            "%s on a character iterator is given a byte quantity (from find/len): with multi-byte text the iterator is advanced too far - e.g. past the end of a doc comment and over the top-level `|` that decides whether a union gets its parentheses" % t["fn"]["path"].split("::")[-1], f, l)
             if fn_matches(t, r"str::<impl str>::(split_at|get)$", r"io::SeekFrom", r"ops::Index<.*Range") and len(t["args"]) > 1 and op_local(t["args"][1]) is not None:
                 org = origins(b, op_local(t["args"][1]), identity=M.IDENTITY_CALLS)
-                if any(o["kind"] == "call" and fn_matches(o["t"], *CHAR_SRC) for o in org):
+                if any(o["kind"] == "call" and fn_matches(o["t"], *CHAR_SRC) and re.search(r"str::(Chars|CharIndices)", (o["t"].get("arg_tys") or [""])[0]) for o in org):
                     n += 1
                     f, l = M.user_span(t["span"])
                     r.fail(prop, "char-count-used-as-byte-offset %s" % b.path, "a `chars().count()` result is used as a byte position in %s" % t["fn"]["path"].split("::")[-1], f, l)
